@@ -148,7 +148,7 @@ func (c CounterStyle) renderValue(counterValue int, counter *CounterStyleDescrip
 	// Step 2
 	counterRanges := counter.Range.Ranges
 	if counter.Range.Auto || counter.Range.IsNone() {
-		minRange, maxRange := math.MinInt32, math.MaxInt32
+		minRange, maxRange := math.MinInt, math.MaxInt // the automatic range is unbounded
 		if system == "alphabetic" || system == "symbolic" {
 			minRange = 1
 		} else if system == "additive" {
